@@ -5,6 +5,7 @@
 //! (`swimos_runtime::timeout_coord`, reached through `verif_hooks`) with a counting waker, compared step by
 //! step with a reference model (set of outstanding votes + dropped parties + unanimity latch); random
 //! longer sequences; and a real-thread stress tier whose verdict only uses schedule independent invariants.
+mod agentrt;
 mod dlrt;
 mod model;
 mod threads;
@@ -349,5 +350,8 @@ fn main() {
     // the clause against the real downlink runtime (read task + write task + attachment task + coordinator)
     let n = ctx.pick(1_000_000, 30_000_000);
     ctx.prop("dl-runtime", n, dlrt::strategy, dlrt::check);
+    // the clause against the real agent runtime (read task + write task + HTTP task + coordinator) with a real agent
+    let n = ctx.pick(150_000, 5_000_000);
+    ctx.prop("agent-runtime", n, agentrt::strategy, agentrt::check);
     ctx.finish();
 }
